@@ -213,6 +213,52 @@ def on_step(p, r, exc, acc):
     acc.sample(desc(m))
 
 
+def h_put(p):
+    """put_string / put_template entries are served under their URI, whatever the file system says"""
+    checks = p.fork(p.new_bool("fs_checks"))
+    use_lru = p.fork(p.new_bool("sized"))
+    shadowed = p.new_bool("a_file_with_that_uri_exists")
+
+    class T:
+        def __init__(self, text=None, filename=None, uri=None, lookup=None, **kw):
+            self.text, self.filename, self.uri = text, filename, uri
+            self.module = types.SimpleNamespace(_modified_time=SymInt(p.new_real("t")))
+
+    class OsPath:
+        sep = "/"
+
+        @staticmethod
+        def isfile(path):
+            return p.fork(shadowed)
+
+    LK.os = types.SimpleNamespace(path=OsPath, sep="/", stat=lambda path: {LK.stat.ST_MTIME: SymInt(p.new_int("m"))})
+    LK.Template = T
+    lk = LK.TemplateLookup(["/d0"], filesystem_checks=checks, collection_size=2 if use_lru else -1)
+    which = p.choose(2, "api")
+    if which == 0:
+        lk.put_string("/s", "text")
+        mine = None
+    else:
+        mine = T(text="own", uri="/s")
+        lk.put_template("/s", mine)
+    got = lk.get_template("/s")
+    again = lk.get_template("/s")
+    return dict(which=which, mine=mine, got=got, again=again, has=lk.has_template("/s"), checks=checks, lru=use_lru)
+
+
+def on_put(p, r, exc, acc):
+    if exc is not None:
+        acc.candidate(kind="put-exception", input=None, detail="%s: %s" % (type(exc).__name__, str(exc)[:200]))
+        return
+    acc.tags["ran"] += 1
+    acc.vcs += 1
+    ok = r["got"] is r["again"] and r["has"] is True and r["got"].filename is None and (r["which"] == 0 and r["got"].text == "text" or r["got"] is r["mine"])
+    if not ok:
+        acc.candidate(kind="put-entry-not-served", input=dict(api=["put_string", "put_template"][r["which"]], filesystem_checks=r["checks"], bounded=r["lru"]),
+                      detail="got %r" % (getattr(r["got"], "text", None),))
+    acc.sample(dict(api=["put_string", "put_template"][r["which"]], filesystem_checks=r["checks"], bounded=r["lru"]))
+
+
 # ------------------------------------------------------------------ LRU inductive step
 def h_lru(cap, k):
     def h(p):
@@ -294,7 +340,16 @@ print("counterexample state:", CASE)
 from mako.lookup import TemplateLookup
 from mako import util
 bad = None
-if KIND.startswith("lru"):
+if KIND.startswith("put"):
+    lk = TemplateLookup(filesystem_checks=CASE["filesystem_checks"], collection_size=2 if CASE["bounded"] else -1)
+    from mako.template import Template
+    if CASE["api"] == "put_string":
+        lk.put_string("/s", "text"); t = lk.get_template("/s")
+        if t.render() != "text" or lk.get_template("/s") is not t or not lk.has_template("/s"): bad = "put_string entry not served"
+    else:
+        mine = Template("own"); lk.put_template("/s", mine)
+        if lk.get_template("/s") is not mine: bad = "put_template entry not served"
+elif KIND.startswith("lru"):
     cap = CASE["capacity"]; k = CASE["entries_before"]
     c = util.LRUCache(cap)
     for i in range(k): c["k%%d" %% i] = i
@@ -385,6 +440,7 @@ def run(check, tier):
     jobs = [("C14-step", h_step, on_step, "one get_template from an arbitrary valid state, %d directories" % NDIRS,
              dict(directories=NDIRS, flags="cached, filesystem_checks, exists per dir, compiles, symlink per dir, LRU/plain collection"),
              ("cached", "uncached", "reload"))]
+    jobs.append(("C14-put", h_put, on_put, "put_string / put_template entries served under their URI", dict(), ("ran",)))
     caps = {"quick": (1, 2), "thorough": (1, 2, 4)}[tier]
     for cap in caps:
         for k in range(0, int(cap * 1.5) + 2):
